@@ -193,8 +193,12 @@ def build_case(seed):
 
 def run_case(case, trace_id):
     # (every second case runs with the plugin's logger enabled for DEBUG)
-    cfg = {"g90e": False, "enter": [], "exit": [], "xg": {}, "at": None,
-           "debug": bool(case["seed"] % 2)}
+    # (a third of the cases configures extended-code entries for the mode / unit codes
+    # themselves, which must stay inert: the filter handles those codes itself)
+    cfg = {"g90e": False, "enter": [], "exit": [],
+           "xg": {"G90": "exclude", "G91": "exclude", "G20": "exclude", "G21": "last",
+                  "G92": "exclude", "G28": "exclude"} if case["seed"] % 3 == 0 else {},
+           "at": None, "debug": bool(case["seed"] % 2)}
     traces = []
     for key in ("base", "var"):
         prog = gen_motion.Program(cfg, case["seed"])
